@@ -139,7 +139,7 @@ bool qhashmd5_file(const char *filepath, off_t offset, ssize_t nbytes,
             nread = read(fd, buf, sizeof(buf));
         else
             nread = read(fd, buf, toread);
-        if (nread < 0)
+        if (nread <= 0)  // error, or the file ends before its stated size
             break;
         MD5Update(&context, buf, nread);
     }
